@@ -172,10 +172,12 @@ Definition oracle (c : case) (out : list Z) : bool :=
 
 Definition known (c : case) : Z := 0.
 
-Definition plain (o : opts) : Prop := offset_ns o = 0 /\ 0 <= max_depth o.
+Definition plain (o : opts) : Prop :=
+  offset_ns o = 0 /\ 0 <= max_depth o /\ 0 <= max_str o /\ 0 <= max_bstr o /\ 0 <= max_arr o.
 Definition valid (c : case) : Prop :=
   match c with
   | CVal t v o rest => wf_ty t v /\ plain o
   | CBytes t o bs =>
-      plain o /\ forall v rest, Codec.run (dec_ty t o (depth0 o)) bs = Ok (v, rest) -> wf_ty t v
+      plain o /\ (forall v rest, Codec.run (dec_ty t o (depth0 o)) bs = Ok (v, rest) -> wf_ty t v)
+      /\ (forall p, Codec.run (dec_ty t o (depth0 o)) bs <> Panic p)
   end.
